@@ -122,11 +122,12 @@ func logoutAdversarial(r *core.Run, prop string) {
 	case "version-absent":
 		m.Version = ""
 	case "destination-wrong":
-		m.Destination = strp([]string{"https://other-sp.example/slo", s.Fed.SLO + "/", s.Fed.ACS, strings.ToUpper(s.Fed.SLO)}[t.Int(4, "c10.dest")])
+		m.Destination = strp([]string{"https://other-sp.example/slo", s.Fed.SLO + "/", s.Fed.ACS, strings.ToUpper(s.Fed.SLO), " " + s.Fed.SLO, s.Fed.SLO + " ", s.Fed.SLO + "\n"}[t.Int(7, "c10.dest")])
 	case "issuer-missing":
 		m.Issuer = nil
 	case "issuer-wrong":
-		m.Issuer = strp("https://evil-idp.example/meta")
+		good := s.Fed.IdPIssuer
+		m.Issuer = strp([]string{"https://evil-idp.example/meta", " " + good, good + " ", "\n\t" + good + "\n", good + "/", strings.ToUpper(good), good + "\u00a0", "x" + good}[t.Int(8, "c10.issuer")])
 	case "status-missing":
 		m.HasStatus = false
 	case "statuscode-missing":
